@@ -17,7 +17,7 @@ COARSE = [0, 1, 2, 3, 7, 10, -1, -4, 100, 2.5, 0.25, -1.5, 1024.125, 3.0, 1e3, 0
 # exact in any order - and a total that were rounded to 15 digits would differ
 FINE = [1 + 2.0 ** -40, 2 + 2.0 ** -42, 0.5 + 2.0 ** -44, 3 - 2.0 ** -41, 1, 2, 0.5, -1.5, 0.25, 0, -1]
 NUMS = list(COARSE)          # the pool of the current workbook (one workbook at a time): COARSE or FINE, never mixed (a mix would make partial sums inexact)
-TEXTS = ['x', 'abc', '7', '12', '', 'TRUE', '-3', '1.5', '#N/A ', '#42', '#TODO', '#n/a']
+TEXTS = ['x', 'abc', '7', '12', '', 'TRUE', '-3', '1.5', '#N/A ', '#42', '#TODO', '#n/a', ' ', '   ']
 OTHER = [True, False, None, None, None]
 DATES = [datetime.datetime(2024, 2, 29), datetime.datetime(1999, 12, 31, 23, 59)]
 ERRS = ['#N/A', '#DIV/0!']
